@@ -709,9 +709,10 @@ def write_is_definite(model: Model, sw: "SharedWrite", threads: bool = True) -> 
             return True
         if base.startswith("attr-store:") and not escaped and not is_lazy_memo_attribute(model, base.split(":", 1)[1]):
             return True
-        if base == "subscript-store:key" and store_is_rmw(model, sw.origin_func, sw.origin_line):
-            return True
-        if base in ("method:append", "method:add", "method:setdefault", "method:update") and call_is_rmw(model, sw.origin_func, sw.origin_line):
+        lines_ = [l_ for kk_, l_, _t in sw.records if kk_.split(" (")[0] == base] if threads else [sw.origin_line]
+        if base == "subscript-store:key" and any(store_is_rmw(model, sw.origin_func, l_) for l_ in lines_):
+            return True          # (with threads: ANY statement that rewrites entries from what the container holds)
+        if base in ("method:append", "method:add", "method:setdefault", "method:update") and any(call_is_rmw(model, sw.origin_func, l_) for l_ in lines_):
             return True
         if threads and base == "method:append" and guarded_multi_append(model, sw):
             return True
